@@ -523,6 +523,7 @@ def gen_history(rng, max_len=40, nosoap=False):
     now = S.NOW0
     marks = []  # instants worth hitting exactly: expiry times and logout deadlines
     logged = set()
+    pend_est = 0  # rough guess of how many requests are pending (only steers the choice of operations)
     steps = []
     n = rng.randint(4, max_len)
     weights = [("login", 22), ("badlogin", 3), ("identity", 10), ("info", 8), ("stale", 5), ("advance", 10),
@@ -536,6 +537,8 @@ def gen_history(rng, max_len=40, nosoap=False):
 
     while len(steps) < n:
         op = rng.choice(ops)
+        if op == "resp" and pend_est <= 0 and rng.random() < 0.8:
+            continue
         if op in ("login", "badlogin"):
             s, i = rng.randrange(n_subj), rng.randrange(n_idp)
             sess = None if rng.random() < 0.45 else now + rng.choice([0, 1, 5, 30, 100, 600])
@@ -572,10 +575,15 @@ def gen_history(rng, max_len=40, nosoap=False):
             exp = None if rng.random() < 0.2 else now + rng.choice([-50, -1, 0, 1, 60, 300])
             if exp is not None:
                 marks.append(exp)
-            steps.append({"op": "logout", "s": subj(), "expire": exp})
+            s = subj()
+            if s in logged and (exp is None or exp >= now):
+                pend_est += sum(1 for d in binds if d["b"] in ("redirect", "post"))
+            steps.append({"op": "logout", "s": s, "expire": exp})
         elif op == "resp":
             r = rng.random()
             sel = "pending" if r < 0.72 else "dup" if r < 0.86 else "unknown"
+            if sel == "pending":
+                pend_est -= 1
             steps.append({"op": "resp", "sel": sel, "n": rng.randrange(6),
                           "issuer": -1 if rng.random() < 0.8 else rng.randrange(n_idp)})
         elif op == "slo":
@@ -623,7 +631,7 @@ def directed_cases():
 def gen_cases(rng, tier):
     for c in directed_cases():
         yield c
-    n = 450 if tier == "quick" else 14000
+    n = 2500 if tier == "quick" else 40000
     for k in range(n):
         yield gen_history(rng, 40, nosoap=(k % 3 == 0))
 
@@ -640,16 +648,19 @@ def compare(case, impl, model):
 def finding_key(case, impl, lean):
     """The one known root cause: `do_logout` does not count an answer received over SOAP (it neither ends
     the session when every involved identity provider has answered nor takes the provider off the shared
-    list).  The key is given only when (a) the first violated clause is `session-not-ended-after-soap-answer`,
-    (b) the very same clauses hold on this trace once SOAP answers are not counted, and (c) model and
-    implementation agree on the whole trace."""
+    list, so the provider is asked again and its stale membership steers the re-entry).  The key is given
+    only when (a) the first violated clause carries the SOAP mark (`...-after-soap-answer`: it was violated
+    while processing a logout operation in which a SOAP answer had been counted), (b) every clause holds on this trace once SOAP answers
+    are not counted — the two readings of the specification differ in nothing else —, (c) model and
+    implementation agree on the whole trace, and (d) some provider of the case answers over SOAP."""
     why = lean.get("why") or ""
     first = why.split(";")[0]
-    if (first.endswith(":session-not-ended-after-soap-answer") and lean.get("spec_impl_code") is True
+    if (first.endswith("-after-soap-answer") and lean.get("spec_impl_code") is True
             and impl == lean.get("model")
             and any(d["b"] == "soap" and d.get("soap", "ok") == "ok" for d in case["cfg"]["idps"])):
         return SOAP_KEY
-    return None
+    # anything else is NOT a known finding; the (unlisted) key only groups the replays by violated clause
+    return "C19/unlisted:" + first.split(":")[-1] if first else None
 
 
 def nontrivial(case, impl, lean):
